@@ -719,7 +719,11 @@ class StructMeta(type):
         for key, val in cls_dict.items():
             if (
                     not any([_is_sunder(key), _is_dunder(key), isinstance(val, Field)])
-                    and (isinstance(val, type) or type_is_generic(val))
+                    and (
+                    isinstance(val, type)
+                    or type_is_generic(val)
+                    or isinstance(val, getattr(types, "UnionType", ()))
+            )
                     and Structure.is_non_typedpy_field_assignment_blocked()
             ):
                 raise TypeError(f"{key}: assigned a non-Typedpy type: {val}")
